@@ -556,6 +556,8 @@ func ZZVerifStore() {
 		ZZVerifC12()
 	case "C04":
 		ZZVerifC04()
+	case "C15":
+		ZZVerifC15()
 	default:
 		ZZVerifC03()
 	}
